@@ -59,7 +59,17 @@ def gen_prog(rng):
             "w": [rng.choice([1.0, -1.0, 3.0]) for _ in range(n)],
             "wt": [rng.choice([0.0, 1.0, 2.0]) for _ in range(n)],       # bit_i * theta terms
             "x": rng.choice([0.0, 2.0]) if n >= 2 else 0.0}               # bit_0 * bit_1 cross term
-    return {"sites": sites, "leaf": leaf}
+    prog = {"sites": sites, "leaf": leaf}
+    if n >= 2 and rng.random() < 0.2:
+        # two nested parallel enumerations followed by a sampled (score-function) site whose location follows the
+        # OUTER outcome only and whose scale is negligible: the site is vectorised twice (once with unbatched,
+        # once with batched parameters), and each lane's value must come from that lane's parameters
+        for t in sites[:2]:
+            t["est"], t["incond"] = "penum", False
+        for t in sites[2:]:
+            t["est"], t["incond"] = rng.choice(["enum", "penum"]), False
+        prog["tail"] = {"m0": rng.choice([-3.0, 0.0, 1.0]), "m1": rng.choice([2.0, 5.0]), "sigma": 1e-6}
+    return prog
 
 
 def build(prog, script, used=None):
@@ -93,6 +103,9 @@ def build(prog, script, used=None):
             v = v + jnp.where(b, w + wt * theta, 0.0)
         if lf["x"] and len(bits) >= 2:
             v = v + jnp.where(jnp.logical_and(bits[0], bits[1]), lf["x"], 0.0)
+        if prog.get("tail"):
+            tl = prog["tail"]
+            v = v + adev.normal_reinforce(jnp.where(bits[0], tl["m1"], tl["m0"]), tl["sigma"])
         return v
     return f, scripted
 
